@@ -314,10 +314,37 @@ def run(ctx):
                         if (p[1], lab2) in (('Eq', 'F'), ('NotEq', 'T')):
                             n404 += 1
                 ok = n404 >= 2
+                # each 404 test looks at the response of its own lookup: one reaching definition each, two different requests.get calls (users, groups)
+                calls404 = []
+                for t, lab2 in dominating_edges(sg, pn):
+                    p = cmp_parts(t.stmt)
+                    if p and isinstance(p[0], ast.Attribute) and p[0].attr == 'status_code' and isinstance(p[0].value, ast.Name):
+                        ds = srd.reaching(t, p[0].value.id)
+                        if len(ds) != 1 or not (isinstance(ds[0][1], ast.Call) and (call_name(ds[0][1]) or '').endswith('requests.get')):
+                            ok = False
+                        else:
+                            calls404.append(id(ds[0][1]))
+                ok = ok and len(set(calls404)) >= 2
+                # the groups come from the response that passed the second test
+                gv = s.value.elts[1]
+                gsrc, gnode = gv, pn
+                from ..dataflow import resolve as _res
+                gsrc, gnode = _res(srd, pn, gv)
+                roots = [x for x in ast.walk(gsrc) if isinstance(x, ast.Name)]
+                for rname in roots:
+                    ds = srd.reaching(gnode, rname.id)
+                    if len(ds) != 1 or not (isinstance(ds[0][1], ast.Call) and id(ds[0][1]) in calls404):
+                        ok = False
         ctx.check(ok, 'C17.R4', 'SLUGSConnector.authenticate|return', rsite,
                   'returns (certificate CN, groups) only after the user and group lookups passed their 404 tests',
                   'SLUGS connector returns an identity without both lookups succeeding / not derived from the certificate: %s' % short(s))
 
+    # no failure of a lookup is swallowed: every except arm of SLUGSConnector.authenticate ends in a raise
+    for h in [n for n in sg.nodes if n.kind == 'handler']:
+        body_nodes = [n for n in sg.nodes if h.stmt in n.handlers]
+        leaves = [n for n in body_nodes + [h] if any(m_ not in body_nodes and m_ is not sg.raise_exit and l_ != 'exc' for m_, l_ in n.succ)]
+        ctx.check(not leaves, 'C17.R4', 'SLUGSConnector.authenticate|except %s raises' % ','.join(handler_catches(h.stmt)), '%s:%s SLUGSConnector.authenticate' % (SLUGS, h.stmt.lineno),
+                  'the arm ends in a raise', 'an except arm of the SLUGS connector completes normally: a failed lookup (connection dropped, non-JSON body) no longer fails the authentication and the method goes on to return an identity')
     # -- R5 failure arms
     m = EngineModel(src)
     te = transitive_effects(m)
